@@ -60,10 +60,20 @@ fn watchdog<F: FnOnce() -> String + Send + 'static>(f: F) -> String {
 }
 
 fn temp_path(tag: &str) -> PathBuf {
-    let base = std::env::var("VERIF_SOCK_DIR").unwrap_or_else(|_| "/verif/work/sock".to_string());
+    // <this copy of /verif>/work/sock (the executable lives in harness/target/<profile>/): a snapshot of /verif
+    // run elsewhere on the machine uses its own directory; the name also carries the start time of the
+    // process, so that equal pids in different pid namespaces cannot collide
+    static START: std::sync::OnceLock<u128> = std::sync::OnceLock::new();
+    let start = *START.get_or_init(|| std::time::SystemTime::now().duration_since(std::time::UNIX_EPOCH).map(|d| d.as_nanos()).unwrap_or(0) % 1_000_000_000);
+    let base = std::env::var("VERIF_SOCK_DIR").unwrap_or_else(|_| {
+        std::env::current_exe()
+            .ok()
+            .and_then(|e| e.ancestors().nth(4).map(|r| r.join("work").join("sock").to_string_lossy().to_string()))
+            .unwrap_or_else(|| "/verif/work/sock".to_string())
+    });
     let _ = std::fs::create_dir_all(&base);
     let n = DIRSEQ.fetch_add(1, Ordering::Relaxed);
-    PathBuf::from(format!("{}/{}-{}-{}.sock", base, tag, std::process::id(), n))
+    PathBuf::from(format!("{}/{}-{}-{}-{}.sock", base, tag, std::process::id(), start, n))
 }
 
 enum Peer {
